@@ -17,6 +17,9 @@ pub struct FromMetaOptions {
     from_word: Option<Callable>,
     /// Override for the default [`FromMeta::from_none`] method.
     from_none: Option<Callable>,
+    /// The number of fields the input declares if it is a tuple struct.
+    /// `base.data` cannot be used for this, as fields whose options fail to parse are not added to it.
+    tuple_struct_len: Option<usize>,
 }
 
 impl FromMetaOptions {
@@ -25,6 +28,13 @@ impl FromMetaOptions {
             base: Core::start(di)?,
             from_word: None,
             from_none: None,
+            tuple_struct_len: match di.data {
+                syn::Data::Struct(syn::DataStruct {
+                    fields: syn::Fields::Unnamed(ref fields),
+                    ..
+                }) => Some(fields.unnamed.len()),
+                _ => None,
+            },
         })
         .parse_attributes(&di.attrs)?
         .parse_body(&di.data)
@@ -107,7 +117,7 @@ impl ParseData for FromMetaOptions {
 
         match self.base.data {
             Data::Struct(ref data) => {
-                if data.is_tuple() && !data.is_newtype() {
+                if self.tuple_struct_len.map_or(false, |len| len != 1) {
                     errors.push(
                         Error::custom(
                             "`FromMeta` can only be derived for tuple structs with exactly one field",
